@@ -134,7 +134,7 @@ SCHEMA_FLOW = Ob("C19-F1", "R-FLOW", "schema flow: generated from the first line
 GEN_TOKENS = Ob("C19-G1", "R-TABLE", "every field type the generator emits is an arm of FieldType::try_parse; sized form parsed", AQ.ob_generator_tokens)
 SLICES = Ob("C19-P1", "R-PANIC", "autosql parser slices the input only at its cursors; cursors only take char boundaries; no unwrap on input-derived options", AQ.ob_slice_provenance)
 MISSING_TAINT = Ob("C20-F1", "R-FLOW", "`missing` flows only to output fill, unwrap_or defaults, NaN replacement, output allocation (never a scratch accumulator)", PA.ob_missing_taint)
-DIV_GUARDS = Ob("C20-N1", "R-ORDER", "every mean division by a covered-base count in the four bin routines is guarded by count > 0", PA.ob_division_guards, floor=8)
+DIV_GUARDS = Ob("C20-N1", "R-ORDER", "every mean division by a covered-base count in the four bin routines is guarded by count > 0", PA.ob_division_guards, floor=4)
 BIN_SIBS = Ob("C20-S1", "R-SIB", "bin routines: bins/zoom siblings share bookkeeping; in-loop and final flush blocks identical", PA.ob_bin_siblings, floor=2)
 DRIVERS = Ob("C20-F2", "R-FLOW", "drivers: clamped query range, oob bins after data fill, bigWig/bigBed drivers identical", PA.ob_drivers, floor=3)
 BIN_ARITH = Ob("C20-B1", "R-BOUND", "bin_bound / bin_of: exact tiling, non-empty bins, integral widths, index and span consistent - evaluated for all small (len, bins, pos)", PA.ob_bin_arithmetic)
